@@ -206,6 +206,21 @@ func compactOff(k int) int {
 func (c *Ctx) compactCase(ns share.Namespace, txs [][]byte, allRanges bool) {
 	c.newCase()
 	c.emit(fmt.Sprintf("css new %s 0", hx(ns.Bytes())), "ok")
+	// representation variant: the namespace handed to the splitter is a 29-byte VIEW with spare capacity
+	// behind it (what Share.Namespace() returns); the bytes behind it must stay untouched
+	var nsBuf, nsBuf0 []byte
+	if c.rng.Chance(1, 3) {
+		nsBuf = append(append([]byte(nil), ns.Bytes()...), bytes.Repeat([]byte{0x5a}, c.rng.Range(483, 1200))...)
+		nsBuf0 = append([]byte(nil), nsBuf...)
+		if v, err := share.NewNamespaceFromBytes(nsBuf[:29]); err == nil {
+			ns = v
+		}
+	}
+	defer func() {
+		if nsBuf != nil && !bytes.Equal(nsBuf, nsBuf0) {
+			c.violate("C10", "", "the compact share splitter wrote into the memory behind the namespace it was given", "", c.caseOps)
+		}
+	}()
 	css := share.NewCompactShareSplitter(ns, 0)
 	starts := make([]int, len(txs))
 	ends := make([]int, len(txs))
